@@ -216,6 +216,16 @@ def returns_reshaped(v: "FnView") -> bool:
     return False
 
 
+def _assigned(v: "FnView") -> set[str]:
+    c = getattr(v, "_assigned_cache", None)
+    if c is None:
+        from .norm import assigned_names
+
+        c = assigned_names([v.fn.node])
+        v._assigned_cache = c  # type: ignore[attr-defined]
+    return c
+
+
 def expand_vanished(v: "FnView", fact: str) -> str:
     """A table fact with every identifier the function no longer contains replaced by the
     expression it was defined as in the reviewed function (a local that was inlined)."""
@@ -224,8 +234,17 @@ def expand_vanished(v: "FnView", fact: str) -> str:
         return fact
     raw = fact.startswith("raw:")
     body = fact[4:] if raw else fact
+    done: set[str] = set()
     for _ in range(3):
-        gone = [g for g in vanished(v, body) if g in rv["defs"]]
+        gone = [g for g in vanished(v, body) if g in rv["defs"] and g not in done]
+        # a parameter the reviewed function defaulted in place (`if p is None: p = A`) and the current one
+        # no longer assigns: the reviewed facts speak of the defaulted value
+        try:
+            ids = {m.group(1) for m in _IDENT.finditer(re.sub(r"'[^']*'|\"[^\"]*\"", "''", body))}
+        except re.error:
+            ids = set()
+        gone += [g for g in ids if g in rv["defs"] and g not in done and g in v.fn.params() and g not in _assigned(v) and g not in v.res.defs and g not in gone and rv["defs"][g] not in body]  # (idempotent: already expanded)
+        done |= set(gone)
         if not gone:
             break
         try:
@@ -374,9 +393,15 @@ def reach_expr(v: FnView, at, e: ast.expr, depth: int = 2) -> ast.expr | None:
                         if isinstance(d, (ast.Assign, ast.AnnAssign)) and d.value is not None and dep > 0:
                             dn = v.cfg.stmt_node.get(id(d))
                             # a definition in terms of the name itself (`x = x.first_child`) is not a value
-                            if dn is not None and not any(isinstance(y, ast.Name) and y.id == node.id for y in ast.walk(d.value)):
+                            selfref = any(isinstance(y, ast.Name) and y.id == node.id for y in ast.walk(d.value))
+                            if dn is not None and not selfref:
                                 changed = True
                                 return subst(clone(d.value), dn, dep - 1)
+                            if dn is not None and isinstance(d.value, ast.BoolOp) and any(isinstance(y, ast.Name) and y.id == node.id for y in d.value.values):
+                                # the accumulating flag `x = x or E`: where the new x is falsy, the old x and E
+                                # are; where it is truthy, one of them is - the old and the new x read alike
+                                changed = True
+                                return clone(d.value)
                 return node
 
             def visit_Lambda(self, node: ast.Lambda) -> ast.AST:
@@ -472,7 +497,21 @@ def full_fact(v: FnView, fact: str) -> str | None:
         return None
     if not any(isinstance(x, ast.Name) and x.id in v.res.defs for x in ast.walk(tree)):
         return None
-    out = " ".join(src(v.res.expr(tree, 8)).split())
+    from .norm import facts as _nfacts
+
+    rt = v.res.expr(tree, 8)
+    # back into the canonical form the node facts have (operand order of comparisons, truthy/falsy wrappers)
+    out = None
+    if isinstance(rt, ast.Call) and isinstance(rt.func, ast.Name) and rt.func.id in ("truthy", "falsy") and len(rt.args) == 1:
+        fs = _nfacts(rt.args[0], rt.func.id == "truthy")
+        if len(fs) == 1:
+            out = fs[0]
+    elif isinstance(rt, (ast.Compare, ast.UnaryOp)):
+        fs = _nfacts(rt, True)
+        if len(fs) == 1:
+            out = fs[0]
+    if out is None:
+        out = " ".join(src(rt).split())
     return ("raw:" if raw else "") + out
 
 
@@ -538,6 +577,28 @@ def need_holds(v: FnView, node: ast.AST, alts: list[str], raw: bool = False, non
                 if all(len(d) == 1 and d[0] in alt_facts for d in disj):
                     return True
     through = []
+    # `two = f(one) if one else None` (the port's `two = None; if one: two = ...` idiom, in the current
+    # or the reviewed function): where `one` is falsy, `two` is None - so `not one` establishes `not two`
+    for f in sorted(alt_facts):
+        m = re.fullmatch(r"(?:raw:)?(?:falsy\((\w+)\)|(\w+) is None)", f)
+        if not m:
+            continue
+        nm = m.group(1) or m.group(2)
+        cands = [v.res.defs.get(nm)]
+        rv = _reviewed(v)
+        if rv is not None and nm in rv.get("defs", {}):
+            try:
+                cands.append(ast.parse(rv["defs"][nm], mode="eval").body)
+            except SyntaxError:
+                pass
+        for d in cands:
+            if not (isinstance(d, ast.IfExp) and isinstance(d.orelse, ast.Constant) and d.orelse.value is None):
+                continue
+            neg = _nf(d.test, False)
+            if len(neg) == 1:
+                if neg[0] in local:
+                    return True
+                through += _establishing(v, neg[0])
     for a in alts:
         fs = [expand_vanished(v, f) for f in ([a] if raw else need_facts(a))]
         if len(fs) != 1:
